@@ -24,3 +24,20 @@ let split_once c s =
   | None -> (s, "")
   | Some i -> (String.sub s 0 i, String.sub s (i + 1) (String.length s - i - 1))
 let some = function Some x -> x | None -> raise Model_none
+
+(* arbitrary-size decimal <-> N (values of u64 / i128 fields do not fit OCaml's int) *)
+let n_of_dec (s : string) : n =
+  let acc = ref N0 in
+  String.iter (fun c -> acc := N.add (N.mul !acc (n_of_int 10)) (n_of_int (Char.code c - 48))) s; !acc
+let dec_of_n (x : n) : string =
+  if x = N0 then "0" else begin
+    let b = Buffer.create 40 in
+    let r = ref x in
+    let ten = n_of_int 10 in
+    while !r <> N0 do
+      Buffer.add_char b (Char.chr (48 + int_of_n (N.modulo !r ten)));
+      r := N.div !r ten
+    done;
+    let s = Buffer.contents b in
+    String.init (String.length s) (fun i -> s.[String.length s - 1 - i])
+  end
